@@ -76,7 +76,8 @@ def _task(kind, prop, tier, arg=None):
         return zfold.verify(prop, only=arg)
     if kind == 'Q':
         from .. import zqr
-        return zqr.verify(arg)
+        which, kind = arg
+        return zqr.verify(which, kind)
     if kind == 'S':
         from .. import zsweep
         cls, mode = arg
@@ -89,7 +90,7 @@ def _task(kind, prop, tier, arg=None):
     return []
 
 
-QR = {'C11': ['C11'], 'C01': ['C11'], 'C12': ['C12'], 'C13': ['C12']}
+QR = {'C11': [('C11', 'int'), ('C11', 'complex')], 'C01': [('C11', 'int'), ('C11', 'complex')], 'C12': [('C12', 'int'), ('C12', 'complex')], 'C13': [('C12', 'complex')]}
 SWEEPS = {'C01': [('MPS', 'left'), ('MPS', 'right'), ('MPO', 'left'), ('MPO', 'right')], 'C02': [('MPS', 'left'), ('MPS', 'right'), ('compress', 'left'), ('compress', 'right')],
           'C13': [('compress', 'left'), ('compress', 'right')]}
 
